@@ -1910,6 +1910,30 @@ func (in *interp) boundary() {
 	if in.res.err != nil || in.res.foreign != "" {
 		panic(stopCase{})
 	}
+	if in.own == "C09" || in.own == "C01" || in.own == "C02" {
+		// An open write transaction sees the tables it does not hold as the
+		// snapshot taken when it started: revision and object count of such a
+		// table stay what they were then, whatever other transactions have
+		// committed since (constant revision of a snapshot: C09; frozen: C01;
+		// all of a later commit or nothing: C02).
+		for _, w := range in.ws {
+			for t, tbl := range in.tbls {
+				if w.locked[t] || t >= len(w.st.tables) {
+					continue
+				}
+				ts := w.st.tables[t]
+				if rev := tbl.Revision(w.txn); rev != ts.rev {
+					in.viol(in.own, "open-txn-revision", "an open write transaction that does not hold t%d reports revision %d for it; it was %d when the transaction started (the table's committed revision is now %d)", t, rev, ts.rev, in.cur.tables[t].rev)
+				}
+				if n := tbl.NumObjects(w.txn); n != len(ts.objs) {
+					in.viol(in.own, "open-txn-numobjects", "an open write transaction that does not hold t%d reports %d objects in it; there were %d when the transaction started", t, n, len(ts.objs))
+				}
+				if in.cur.tables[t].rev != ts.rev {
+					in.res.class("unheld_table_changed_while_txn_open")
+				}
+			}
+		}
+	}
 	in.reaudit(false, in.step)
 }
 
